@@ -74,7 +74,7 @@ fn invariants(srv: &Srv, _m: &Model) -> Vec<String> {
     v
 }
 
-fn make_world(spec: &str) -> Option<Box<dyn World>> {
+pub fn make_world(spec: &str) -> Option<Box<dyn World>> {
     let full = match spec {
         "c16-core" => false,
         "c16-full" => true,
